@@ -3,6 +3,7 @@ import json
 import random
 
 from .. import pl, tlc
+from ..core import close
 from .. import terms as T
 from .c13 import r_clause
 
@@ -32,8 +33,116 @@ def gen_case(rng):
     return prog, T.Cm("cut", call, T.V(9))
 
 
+def gen_prob_case(rng):
+    """indexed rule sets with probabilistic applicability: annotated unit rules, annotated rules with bodies,
+    conditions on probabilistic facts"""
+    clauses, choices, text = [], [], []
+
+    def add(h, b, ptxt=None):
+        c = 0
+        if ptxt is not None:
+            choices.append([ptxt])
+            c = len(choices)
+        clauses.append({"h": h, "b": b, "c": c, "v": 1 if c else 0})
+        line = r_clause({"h": h, "b": b})
+        text.append(("0.%d::" % ptxt + line) if ptxt is not None else line)
+    for cst in CONST:
+        r = rng.random()
+        if r < 0.45:
+            add(T.Cm("g", cst), [], rng.randint(1, 9))
+        elif r < 0.75:
+            add(T.Cm("g", cst), [])
+    add(T.Cm("g", T.A("z")), [])                               # g/1 is always defined
+    n = rng.randint(2, 5)
+    for i in rng.sample(range(1, 16), n):
+        args = [rng.choice(CONST[:2]) for _ in range(2)]       # ground heads: every answer is ground
+        body = []
+        kind = rng.random()
+        if kind < 0.5:
+            t = rng.choice(CONST)
+            g = {"k": "call", "t": T.Cm("g", t)}
+            if rng.random() < 0.2 and t["t"] != "v":
+                g = {"k": "not", "g": [g]}
+            body.append(g)
+        ground = all(a["t"] != "v" for a in args)
+        if rng.random() < 0.4 and (ground or body):
+            # an annotated rule; without a body it must be ground (a unit clause with a probability)
+            if not body and not ground:
+                add(T.Cm("r", T.I(i), *args), body)
+            else:
+                nonground_ok = all(a["t"] != "v" for a in args) or (body and body[0]["k"] == "call" and body[0]["t"]["a"][0]["t"] == "v")
+                if nonground_ok:
+                    add(T.Cm("r", T.I(i), *args), body, rng.randint(1, 9))
+                else:
+                    add(T.Cm("r", T.I(i), *args), body)
+        else:
+            add(T.Cm("r", T.I(i), *args), body)
+    call = T.Cm("r", *[rng.choice(CONST + [T.V(2), T.V(3)]) for _ in range(2)])
+    q = T.Cm("cut", call, T.V(9))
+    return {"clauses": clauses, "choices": choices, "den": 10, "q": q,
+            "text": ":- use_module(library(cut)).\n" + "\n".join(text) + "\nw(A, B, I) :- cut(r(A, B), I).\n"}
+
+
+def run_prob(ctx, rng):
+    cases = []
+    seen = set()
+    while len(cases) < ctx.pick(250, 3000):
+        c = gen_prob_case(rng)
+        if c["text"] in seen or len(c["choices"]) > 7:
+            continue
+        seen.add(c["text"])
+        c["id"] = len(cases)
+        # the query is asked through a wrapper so that the answers are w(A, B, I) atoms
+        call = c["q"]["a"][0]
+        c["wq"] = "query(w(%s, %s, _))." % (T.render(call["a"][0]), T.render(call["a"][1]))
+        cases.append(c)
+    J = tlc.judge_batch("JudgeCutProb", [{k: c[k] for k in ("id", "clauses", "choices", "den", "q")} for c in cases],
+                        nproc=ctx.nproc, tag="c33p")
+    runs = pl.run_jobs([("prob_terms", {"text": c["text"] + c["wq"] + "\n"}) for c in cases], nproc=ctx.nproc, timeout=ctx.pick(40, 120))
+    nontriv = 0
+    for c, r in zip(cases, runs):
+        ctx.evaluations += 1
+        j = J[c["id"]]
+        if j["ovf"]:
+            continue
+        if r.get("error"):
+            if r.get("inconclusive"):
+                ctx.inconclusive += 1
+                continue
+            ctx.violation({"clause": "crash" if not r.get("problog_error") else "wrong-error", "error": r["error"],
+                           "site": r.get("site", ""), "mode": "probabilistic"},
+                          "%s: %s\n%s" % (r["error"], r.get("msg"), c["text"] + c["wq"]), {"pcase": c})
+            continue
+        # expected answers are cut(r(A,B), I) terms; the implementation reports w(A, B, I)
+        exp = {}
+        for e in j["expected"]:
+            if e["num"] > 0:
+                a = e["ans"]
+                inner = a["a"][0]
+                exp[T.render(T.Cm("w", inner["a"][0], inner["a"][1], a["a"][1]))] = e["num"]
+        got = {T.render(t): pv for t, pv in r["answers"] if pv > 1e-12}
+        if len(exp) >= 2:
+            nontriv += 1
+        for name, num in exp.items():
+            if name not in got:
+                ctx.violation({"clause": "cut-answer-missing", "mode": "probabilistic"},
+                              "%s (probability %d/%d) is not reported\n%s\nimplementation: %s" % (name, num, j["total"], c["text"] + c["wq"], got), {"pcase": c})
+            elif not close(got[name], num, j["total"], 1e-9):
+                ctx.violation({"clause": "cut-answer-probability", "mode": "probabilistic"},
+                              "%s: reported %r, exact %d/%d\n%s" % (name, got[name], num, j["total"], c["text"] + c["wq"]), {"pcase": c})
+        for name in got:
+            if name not in exp:
+                ctx.violation({"clause": "cut-answer-spurious", "mode": "probabilistic"},
+                              "%s: reported %r; in no world is this the answer of the lowest applicable rule\n%s\nexpected: %s" % (
+                                  name, got[name], c["text"] + c["wq"], exp), {"pcase": c})
+    if cases:
+        ctx.sample({"probabilistic_program": cases[0]["text"] + cases[0]["wq"]})
+    return nontriv
+
+
 def run(ctx):
     rng = random.Random(ctx.seed + 3333)
+    nontriv_prob = run_prob(ctx, random.Random(ctx.seed + 333333))
     cases = []
     seen = set()
     while len(cases) < ctx.pick(500, 6000):
@@ -86,8 +195,11 @@ def run(ctx):
     ctx.sample({"program": [r_clause(cl) for cl in c["prog"]], "query": T.render(c["q"]),
                 "impl": [T.render(a) for a in c["impl"]["ans"]]})
     ctx.write_evidence("exploration", {
-        "evaluations": ctx.evaluations, "distinct_nontrivial": nontriv,
-        "rule": "indexed rule sets r(I, A, B) with 2-7 distinct indices from 1..15 in shuffled file order (multi-digit and "
+        "evaluations": ctx.evaluations, "distinct_nontrivial": nontriv + nontriv_prob,
+        "probabilistic_rule_sets_nontrivial": nontriv_prob,
+        "rule": "probabilistic rule sets (annotated unit rules, annotated rules with bodies, conditions on probabilistic facts; "
+                "every answer's probability = weight of the worlds in which it is the answer of the lowest applicable rule, "
+                "JudgeCutProb.tla); deterministic indexed rule sets r(I, A, B) with 2-7 distinct indices from 1..15 in shuffled file order (multi-digit and "
                 "single-digit mixed), optional applicability conditions (facts, negation), calls with constants and "
                 "variables through cut/2; non-trivial = some rule applies"},
         assumptions=["reference: 'answers of the applicable rule with the smallest index in standard order' as defined by "
@@ -98,6 +210,14 @@ def replay(ctx, path):
     with open(path) as f:
         d = json.load(f)
     c = d["case"]
+    if "pcase" in c:
+        pc = c["pcase"]
+        print(pc["text"] + pc["wq"])
+        print(pl.run_local("prob_terms", text=pc["text"] + pc["wq"] + "\n"))
+        print(tlc.judge_batch("JudgeCutProb", [{k: pc[k] for k in ("id", "clauses", "choices", "den", "q")}], nproc=1))
+        ctx.evaluations = 1
+        ctx.write_evidence("exploration", {"evaluations": 1, "distinct_nontrivial": 0, "rule": "replay (prints)", "samples": [pc["text"]]})
+        return
     text = ":- use_module(library(cut)).\n" + "\n".join(r_clause(cl) for cl in c["prog"]) + "\n"
     o = pl.run_local("det_queries", cases=[{"id": 0, "text": text, "query": T.render(c["q"])}])["results"][0]
     print(text, "?-", T.render(c["q"]), o)
